@@ -233,6 +233,10 @@ class C25(RVCheck):
     pid = "C25"
     mode = "text"
     nstates = 3
+
+    def stateful(self):
+        return True             # a group stays in one harness process; verdicts that depend on what the process printed
+                                # before are reproduced with that history
     rule = ("cases: the C01 grid (every mnemonic x configuration x field grids) plus, per mnemonic, every value of each "
             "behaviour-relevant small field (all 32/64 shift amounts, all 32 CSR immediates, sampled CSR numbers); the "
             "text is tokenised on assembler punctuation; judged: first token = mnemonic, every relevant register "
